@@ -135,7 +135,7 @@ func newInterp(l *Loaded, tc *TermCtx, params map[string]int) *Interp {
 		globals:   map[*ssa.Global]*Value{},
 		extFor:    map[*ssa.Function]extFn{},
 		redir:     map[string]*ssa.Function{},
-		maxSteps:  200_000_000,
+		maxSteps:  300_000,
 		initDone:  map[*ssa.Package]bool{},
 		funcsSeen: map[*ssa.Function]bool{},
 		stubsUsed: map[string]bool{},
